@@ -163,8 +163,9 @@ pub fn freeform_strings() -> BoxedStrategy<String> {
         .boxed();
     gens::padded(gens::respelled(
         prop_oneof![
-            45 => gens::valid_biased(&p.ff_valid, risky_ff()),
-            40 => spacey,
+            40 => gens::valid_biased(&p.ff_valid, risky_ff()),
+            35 => spacey,
+            10 => gens::ascii_words(),
             15 => gens::gstring(),
         ]
         .boxed(),
@@ -274,6 +275,32 @@ pub fn stress_strings(payloads: &[&str]) -> Vec<String> {
             v.push(format!("x{}y", p.repeat(n)));
         }
     }
+    // sandwiches: an early payload, a long filler, a late payload (fast paths that switch mode after the first hit)
+    let ks: Vec<usize> = [15usize, 16, 17, 31, 32, 33, 63, 64, 65, 127, 128, 129, 255, 256, 257, 1023, 1024, 1025, 8191, 8192, 8193]
+        .into_iter()
+        .chain(4088..=4100)
+        .chain([65535, 65536, 65537])
+        .collect();
+    for p in payloads.iter().take(8) {
+        for q in payloads.iter().take(8) {
+            for k in &ks {
+                v.push(format!("{p}{}{q}", "a".repeat(*k)));
+            }
+        }
+    }
+    // huge inputs (scratch buffers that are kept between calls), followed in the list by ordinary ones
+    for p in payloads.iter().take(3) {
+        v.push(format!("{}{p}{}", "x".repeat(35_000), "y".repeat(35_000)));
+        v.push(format!("a{p}"));
+        v.push(format!("{}{p}", "x".repeat(140_000)));
+        v.push(format!("b{p}c"));
+    }
+    // ASCII labels with one single space and one double space at every relative distance
+    for first in [1usize, 2, 7, 8, 9, 15, 16, 17, 31, 32, 33] {
+        for gap in 1..=100usize {
+            v.push(format!("{} {}  c", "a".repeat(first), "b".repeat(gap)));
+        }
+    }
     // many DISTINCT valid characters in one string (fixed-size sets / memo tables), alone and around each payload
     for base in [0x4e00u32, 0x3041, 0x430, 0xac00, 0x561, 0x10428, 0xe0, 0x5d0, 0x905] {
         for n in [15usize, 16, 17, 31, 32, 33, 63, 64, 65, 66, 127, 128, 129, 255, 256, 257, 300] {
@@ -300,8 +327,8 @@ pub fn stress_strings(payloads: &[&str]) -> Vec<String> {
 }
 
 pub const PAYLOADS_SPACE: [&str; 10] = [" ", "\u{a0}", "\u{3000}", "\u{2003} ", "  ", " x ", "\u{a8}", "\u{fdfa}", "\u{1680}\u{205f}", "x\u{3000}\u{3000}y "];
-pub const PAYLOADS_USER: [&str; 20] = [
-    "Z", "aZb", "A", "\u{1c5}", "\u{130}", "\u{3a3}", "\u{1f88}", "\u{10400}", "\u{ff21}", "\u{ff76}\u{ff9e}", "\u{ffe6}", "e\u{301}", "\u{212b}", "\u{5d0}", "\u{661}", "l\u{b7}l",
+pub const PAYLOADS_USER: [&str; 22] = [
+    "\u{ff41}", "\u{3000}", "Z", "aZb", "A", "\u{1c5}", "\u{130}", "\u{3a3}", "\u{1f88}", "\u{10400}", "\u{ff21}", "\u{ff76}\u{ff9e}", "\u{ffe6}", "e\u{301}", "\u{212b}", "\u{5d0}", "\u{661}", "l\u{b7}l",
     "\u{94d}\u{200d}", "\u{9c7}\u{9be}", "\u{13a0}", "\u{5d0}\u{5b8}",
 ];
 pub const PAYLOADS_FREE: [&str; 8] = ["e\u{301}", "\u{212b}", "\u{fb01}", "\u{3131}", "\u{2163}", "\u{9c7}\u{9be}", "A", "\u{ff21}"];
